@@ -200,6 +200,35 @@ func init() {
 		},
 	}
 
+	// ---- search: a population of promises, searches with small pages, clients that follow the cursors (C14) ----
+	families["search"] = &family{
+		name: "search", bgs: []string{"TimeoutPromises"}, requests: 30, maxSteps: 75, fault: 0.03, timeStep: smallStep, fifo: true,
+		config: baseConfig,
+		gen: func(w *world) *t_api.Request {
+			r := w.r
+			ids := []string{"a1", "a2", "a3", "ab", "b1", "b2", "B1", "c", "a_c"}
+			switch x := r.intn(20); {
+			case x < 8:
+				tags := pick(r, []map[string]string{nil, {"k": "v"}, {"k": "w"}, {"k": "v", "x.y": "1"}})
+				return &t_api.Request{Kind: t_api.CreatePromise, CreatePromise: &t_api.CreatePromiseRequest{
+					Id: pick(r, ids), Timeout: w.now + int64(pick(r, []int{1, 2, 3, 60, 80})), Tags: tags}}
+			case x < 11:
+				return &t_api.Request{Kind: t_api.CompletePromise, CompletePromise: &t_api.CompletePromiseRequest{
+					Id: pick(r, ids), State: pick(r, []promise.State{promise.Resolved, promise.Rejected, promise.Canceled})}}
+			default:
+				if nx, ok := w.mem["nextSearch"].(*t_api.SearchPromisesRequest); ok && nx != nil && r.chance(0.85) {
+					w.mem["nextSearch"] = nil
+					cp := *nx
+					return &t_api.Request{Kind: t_api.SearchPromises, SearchPromises: &cp}
+				}
+				states := pick(r, [][]promise.State{{promise.Pending}, {promise.Pending, promise.Resolved, promise.Rejected, promise.Canceled, promise.Timedout},
+					{promise.Resolved, promise.Rejected, promise.Canceled, promise.Timedout}, {promise.Timedout}})
+				return &t_api.Request{Kind: t_api.SearchPromises, SearchPromises: &t_api.SearchPromisesRequest{
+					Id: pick(r, []string{"*", "a*", "*1", "*b*", "a_c"}), States: states, Tags: pick(r, []map[string]string{nil, {}, {"k": "v"}}), Limit: 1 + r.intn(3)}}
+			}
+		},
+	}
+
 	// ---- tasks: routed promises, callbacks, claims, completions, heartbeats, dispatch, sweeps (C07 C08) ----
 	taskGen := func(w *world) *t_api.Request {
 		r := w.r
